@@ -292,20 +292,29 @@ func (s *backendStorageStatic) Reload(config *goconf.ConfigFile) {
 
 	commonSecret, _ := GetStringOptionWithEnv(config, "backend", "secret")
 
-	if backendIds, _ := config.GetString("backend", "backends"); backendIds != "" {
-		configuredHosts := getConfiguredHosts(backendIds, config, commonSecret)
-
-		// remove backends that are no longer configured
-		for hostname := range s.backends {
-			if _, ok := configuredHosts[hostname]; !ok {
-				s.RemoveBackendsForHost(hostname)
-			}
+	backendIds, _ := config.GetString("backend", "backends")
+	if backendIds == "" {
+		allowAll, _ := config.GetBool("backend", "allowall")
+		allowedUrls, _ := config.GetString("backend", "allowed")
+		if allowAll || allowedUrls != "" {
+			log.Println("Switching to old-style configuration is not supported on reload")
+			return
 		}
+		// No backends are configured (anymore), all existing ones are removed below.
+	}
 
-		// rewrite backends adding newly configured ones and rewriting existing ones
-		for hostname, configuredBackends := range configuredHosts {
-			s.UpsertHost(hostname, configuredBackends)
+	configuredHosts := getConfiguredHosts(backendIds, config, commonSecret)
+
+	// remove backends that are no longer configured
+	for hostname := range s.backends {
+		if _, ok := configuredHosts[hostname]; !ok {
+			s.RemoveBackendsForHost(hostname)
 		}
+	}
+
+	// rewrite backends adding newly configured ones and rewriting existing ones
+	for hostname, configuredBackends := range configuredHosts {
+		s.UpsertHost(hostname, configuredBackends)
 	}
 }
 
